@@ -29,6 +29,11 @@ def cases(tier, seed):
     for a in subsets:
         for b in bsub:
             yield {"A": a, "B": b, "alphabet": bounds(tier)["test_alphabet"], "tier": tier}
+    # integer categories whose text order differs from their natural order (2 < 10 < 33 but '10' < '2' < '33'; -1)
+    isub = [list(s_) for r in range(0, 4) for s_ in itertools.combinations((2, 10, 33), r)]
+    for a in isub:
+        for b in ([[], [-1, 2], [10, 2]] if tier == "quick" else isub):
+            yield {"A": a, "B": b, "alphabet": [2, 10, 7, None] if tier == "quick" else [2, 10, 33, 7, None], "tier": tier, "ints": True}
 
 
 def run_case(case):
@@ -49,6 +54,7 @@ def run_case(case):
 
     A, B = case["A"], case["B"]
     nrows = max(len(A), len(B), 1) + 1
+    key_ = (lambda v: v) if case.get("ints") else None
     colA = list(reversed(A)) + [None] * (nrows - len(A))   # unsorted on purpose
     colB = [None] * (nrows - len(B)) + list(B)
     train = pandas.DataFrame({"A": pandas.Series(colA, dtype=object), "num": numpy.arange(nrows) * 1.5,
@@ -102,8 +108,11 @@ def run_case(case):
                             except ValueError as e:
                                 out, err = None, e
                             except Exception as e:
-                                bad("transform raises %s" % type(e).__name__, cond, "%s %s" % (str(e)[:150], desc))
-                                continue
+                                if unseen and not skip:
+                                    out, err = None, e      # "raises an error": the statement does not fix the exception type
+                                else:
+                                    bad("transform raises %s" % type(e).__name__, cond, "%s %s" % (str(e)[:150], desc))
+                                    continue
                             if not test.equals(test0):
                                 bad("input frame modified", cond, desc)
                             if unseen and not skip:
@@ -111,7 +120,7 @@ def run_case(case):
                                     bad("unseen category does not raise", cond, desc)
                                 continue
                             if err is not None:
-                                bad("transform raises ValueError", cond, "%s %s" % (str(err)[:150], desc))
+                                bad("transform raises %s" % type(err).__name__, cond, "%s %s" % (str(err)[:150], desc))
                                 continue
                             if any((not missing(v)) and v in kept[c] for row in rows for c, v in zip("AB", row)):
                                 ntriv += 1
